@@ -432,6 +432,14 @@ fn ast(depth: u32) -> BoxedStrategy<Ast> {
 fn top(depth: u32) -> BoxedStrategy<Ast> {
     prop_oneof![
         8 => ast(depth),
+        // chains of additions at the edge of single precision: every step rounds (16777216 + 1 + 1 is 16777216)
+        1 => (prop_oneof![Just(16777216.0f32), Just(33554432.0), Just(-16777216.0)], vec((prop_oneof![Just('+'), Just('-')], prop_oneof![Just(1.0f32), Just(3.0), Just(0.5), Just(2.0), Just(16777216.0)]), 2..5)).prop_map(|(big, steps)| {
+            let mut e = Ast::Num(big);
+            for (op, v) in steps {
+                e = Ast::Bin(op, Box::new(e), Box::new(Ast::Num(v)));
+            }
+            e
+        }),
         // list-valued at the top level
         1 => (0..FL.len(), vec(ast(2), 2..5)).prop_map(|(k, a)| Ast::Fun(FL[k].to_string(), a)),
         1 => Just(Ast::Var("lst".into())),
@@ -498,7 +506,7 @@ fn fam_once(_t: Tier) -> BoxedStrategy<Case> {
 }
 
 fn fam_malformed(_t: Tier) -> BoxedStrategy<Case> {
-    (0u8..11, ast(3), any::<u64>(), 0usize..40, 1usize..5)
+    (0u8..12, ast(3), any::<u64>(), 0usize..40, 1usize..5)
         .prop_map(|(kind, e, ws, fsel, n)| {
             let mut w = ws;
             let good = print(&e, &mut w);
@@ -524,6 +532,8 @@ fn fam_malformed(_t: Tier) -> BoxedStrategy<Case> {
                 // an undefined variable where a list would be acceptable: as a function argument, bare, in brackets
                 9 => ([format!("max($undefined_var, {good})"), "$undefined_var".to_string(), "($undefined_var)".to_string(), "count($undefined_var)".to_string(), format!("sum({good}, $undefined_var)")][fsel % 5].clone(), "undefined-variable-as-argument".into()),
                 10 => (format!("head($widht, {good})"), "undefined-variable-as-argument".into()),
+                // vector functions pair their arguments up: an odd number of values is a wrong number of arguments
+                11 => (["subv(20, 10, 5)", "addv(1, 2, 3)", "subv($lst)", "addv($lst, 1, 2)", "subv(1)"][fsel % 5].to_string(), "arity-odd:vector-function".into()),
                 6 => (format!("{good} +"), "dangling-operator".into()),
                 7 => ("$cyc0 + 1".to_string(), format!("variable-cycle:{n}")),
                 _ => (format!("({good}) ({good})"), "missing-operator".into()),
